@@ -20,7 +20,7 @@ EXPLANATION = (
     "increments) ++ [N]. Not decided: equality of arbitrary user functions under cache on/off; the history "
     "quantifier beyond 'each operation preserves R4'.")
 RULE_TEXT = "one obligation per operator x literal prefix, per counter clause, per metric store, per cache clause"
-FLOORS = {'C15.R1': 18, 'C15.R2': 2, 'C15.R3': 5, 'C15.R4': 2, 'C15.R5': 3}
+FLOORS = {'C15.R1': 18, 'C15.R2': 2, 'C15.R3': 5, 'C15.R4': 2, 'C15.R5': 3, 'C15.R6': 1}
 PINNED_EXPECT = [('C15.R5', 'emd.cycles.get_cycle_vector', 'last boundary')]
 
 OPS = {'==': 'numpy.equal', '!=': 'numpy.not_equal', '<=': 'numpy.less_equal', '>=': 'numpy.greater_equal',
@@ -33,6 +33,7 @@ def run(ctx):
     rule_counters(ctx, 'C15.R3')
     rule_metric_store(ctx, 'C15.R4')
     rule_cache(ctx, 'C15.R5')
+    rule_recompute(ctx, 'C15.R6')
 
 
 # ----------------------------------------------------------------------------------------------
@@ -48,6 +49,13 @@ class StrEval:
         k = t[0]
         if k == 'c':
             return t[1]
+        if k == 'ref':
+            return t
+        if k == 'un' and t[1] == 'not':
+            return not self.ev(t[2])
+        if k in ('and', 'or'):
+            vals = [bool(self.ev(x)) for x in t[1]]
+            return all(vals) if k == 'and' else any(vals)
         if k == 'sub':
             b = self.ev(t[1])
             idx = t[2]
@@ -70,7 +78,13 @@ class StrEval:
                 return getattr(b, t[1])(*args)
         if k == 'cmp':
             a, b = self.ev(t[2]), self.ev(t[3])
-            return {'==': a == b, '!=': a != b, 'in': a in b if t[1] == 'in' else None}.get(t[1])
+            if t[1] in ('is', 'isnot'):
+                r = (a is None) if b is None else (a == b)
+                return r if t[1] == 'is' else not r
+            if t[1] in ('in', 'notin'):
+                r = a in b
+                return r if t[1] == 'in' else not r
+            return {'==': a == b, '!=': a != b}.get(t[1])
         raise ValueError('cannot fold %s' % show(t)[:60])
 
 
@@ -390,3 +404,36 @@ def rule_cache(ctx, rid):
         ctx.passed(rid, fi, c)
     else:
         ctx.violation(rid, fi, c, 'cache is %s' % (show(exits[0].value)[:160] if exits else 'not returned'))
+
+
+def rule_recompute(ctx, rid):
+    """pick_cycle_subset derives subset and chain vectors from the *current* metrics on every call: no path may
+    return without recomputing them (metrics can change between two picks with the same condition strings)."""
+    P = ctx.P
+    fi = P.func('emd.cycles.Cycles.pick_cycle_subset')
+    exits = Evaluator(P).run(fi)
+    ctx.paths += len(exits)
+    c = 'every call recomputes subset_vect, chain_vect and chain_ind from the current metrics'
+    bad = None
+    n = 0
+    for e in exits:
+        if e.kind != 'return':
+            continue
+        n += 1
+        sv = e.state.env.get('self.subset_vect')
+        cv = e.state.env.get('self.chain_vect')
+        ok_sv = sv is not None and sv[0] == 'call' and sv[1] == 'emd.cycles.get_subset_vector' \
+            and any(t[0] == 'call' and t[1] == 'emd.cycles.Cycles.get_matching_cycles' for t in subterms(sv))
+        ok_cv = cv is not None and cv[0] == 'call' and cv[1] == 'emd.cycles.get_chain_vector'
+        ok_ci = any(eff[0] == 'expr' and eff[1][0] == 'call' and eff[1][1] == 'emd.cycles.Cycles.add_cycle_metric'
+                    and dict(eff[1][3]).get('name') == C('chain_ind') for eff in e.state.effects)
+        if not (ok_sv and ok_cv and ok_ci):
+            bad = (e, 'a path returns without recomputing %s' % ', '.join(
+                x for x, ok in (('subset_vect', ok_sv), ('chain_vect', ok_cv), ('chain_ind', ok_ci)) if not ok))
+    if bad:
+        ctx.violation(rid, fi, c, bad[1] + ' (subset and chains go stale when a metric changed since the last pick)',
+                      node=bad[0].node, path=trace_tail(bad[0].state, 6))
+    elif n == 0:
+        ctx.undecided(rid, fi, c, 'no return path')
+    else:
+        ctx.passed(rid, fi, c, '%d return path(s)' % n)
